@@ -13,6 +13,7 @@ package main
 import (
 	"encoding/hex"
 	"fmt"
+	"os"
 	"strings"
 	"time"
 )
@@ -94,7 +95,13 @@ func obsC06Cmd(in string) string {
 		switch cmd {
 		case "infer":
 			p := strings.SplitN(rest, " ## ", 2)
-			tr := writeFile(dir, "training.knut", DecodeJournal(p[0]).Text())
+			// the training journal is spread over an include tree (files arrive at the trainer in scheduling order;
+			// seeded change C06b-infer-first-seen-tiebreak resolved ties by first appearance and was missed with
+			// one training file)
+			trj := DecodeJournal(p[0])
+			lr := newRng(lseed, "C06infer", 0)
+			os.MkdirAll(dir+"/tr", 0o755)
+			tr := writeLayout(dir+"/tr", trj, genLayout(lr, len(trj), 4), lr)
 			tg := writeFile(dir, "target.knut", DecodeJournal(p[1]).Text())
 			out = c06Repeat(dir, runs, lseed, []string{"infer", "-t", tr, tg})
 		case "rawimport":
